@@ -58,11 +58,18 @@ def snapshot(t, with_ranks=True):
     else:
         snap["tree"] = ["rank0", enc_value(root)]
     if with_ranks:
-        snap["ids"] = [r.getId() for r in t.ranks]
+        snap["ids"] = [enc_value(_jsonable(r.getId())) for r in t.ranks]
         snap["ranklists"] = [[id(f) for f in r.getFibers()] for r in t.ranks]
         snap["fmt"] = [r.getFormat() for r in t.ranks]
         snap["default"] = [enc_default(r) for r in t.ranks]
     return snap
+
+
+def _jsonable(x):
+    """a private deep copy (rank ids of flattened ranks are mutable lists)"""
+    if isinstance(x, (list, tuple)):
+        return tuple(_jsonable(y) for y in x)
+    return x
 
 
 def enc_default(rank):
@@ -208,6 +215,8 @@ def identity_set(t):
             add("rank", r)
             add("rankattrs", r.getAttrs())
             add("ranklist", r.getFibers())
+            if isinstance(r.getId(), list):
+                add("rankid-list", r.getId())
         root = root_of(t)
     else:
         root = t
